@@ -26,6 +26,8 @@ def cvalue(rnd, nan_ok=True):
         return fbits(float(rnd.randint(0, 50)))
     if r < 0.7 and nan_ok:
         return NAN
+    if r < 0.74:
+        return rnd.pick(F32_VALUES)
     if r < 0.8:
         return rnd.pick([0x0000000000000000, 0x8000000000000000, 0x7ff0000000000000, 0xfff0000000000000, 0x7ff0000000000000, fbits(0.1),
                          fbits(123456.789012345678), fbits(1e16), fbits(-1e16), 0x3ff0000000000001, fbits(1 / 3), fbits(1.7e308), fbits(-1.7e308)])
@@ -164,10 +166,15 @@ def gen_c08(rnd, n, thorough=False):
         copynan = rnd.pick([0, 1])
         if destkind == 'superset':
             copynan = 1 if rnd.chance(0.8) else 0
-        opt = "src=s:a.wsp dest=d:a.wsp from=%s until=%s archive=%d copynan=%d m=%d x=%08x layout=%s" % (frm, until, arch, copynan, m, xff, lay_csv(layout))
-        lines += ["snap s/a.wsp", "snap d/a.wsp", "clicopy " + opt, "disk s/a.wsp", "disk d/a.wsp"]
+        sname, rem = 'a.wsp', ''
+        if rnd.chance(0.2):
+            # the source is read through a server, under a name with characters that are special in a query string
+            sname, rem = rnd.pick(['cpu+io.wsp', 'rx&tx.wsp', 'q=1.wsp', 'p%41.wsp', 'c++.wsp', 'a.wsp']), ' remote=1'
+            lines = [l.replace(' s/a.wsp', ' s/' + sname) for l in lines]
+        opt = "src=s:%s dest=d:a.wsp from=%s until=%s archive=%d copynan=%d m=%d x=%08x layout=%s%s" % (sname, frm, until, arch, copynan, m, xff, lay_csv(layout), rem)
+        lines += ["snap s/%s" % sname, "snap d/a.wsp", "clicopy " + opt, "disk s/%s" % sname, "disk d/a.wsp"]
         observe_all(lines, 'd/a.wsp', layout)
-        lines += ["snap d/a.wsp", "clicopy " + opt, "disk d/a.wsp", "clidiff src=s:a.wsp dest=d:a.wsp from=%s until=%s archive=%d" % (frm, until, arch)]
+        lines += ["snap d/a.wsp", "clicopy " + opt, "disk d/a.wsp", "clidiff src=s:%s dest=d:a.wsp from=%s until=%s archive=%d" % (sname, frm, until, arch)]
         tags = {'layout': lname, 'dest': destkind, 'window': wk, 'archive': 'all' if arch == -1 else ('bad' if arch < 0 or arch >= k else 'one'), 'copynan': copynan}
         cases.append({'id': 'c08-%d' % c, 'lines': lines, 'tags': tags})
         if rnd.chance(0.15):
@@ -303,7 +310,18 @@ def gen_c09(rnd, n, thorough=False):
                 # clean: the run ends with the error, not with "difference found"
                 gl = [l_ for l_ in gl if ' h/y/b.wsp' not in l_]
                 gl += fill_ops(rnd, 'h/y/b.wsp', [(s_, nn + 2) for s_, nn in layout], m, xff, density=0.3, inconsistent=False)
-            pat = rnd.pick(['*/*.wsp', '*/a.wsp', 'q/*.wsp', '[xy]/*.wsp', 'x/[.wsp'])
+            if rnd.chance(0.5):
+                # one matched source name is a symbolic link to a whisper file elsewhere: it is a matched file
+                # like any other (often the only one whose destination differs or is missing)
+                f = fill_ops(rnd, 'other/t.wsp', layout, m, xff, density=0.5, inconsistent=False)
+                gl += f + ["symlink other/t.wsp g/y/l.wsp"]
+                r_ = rnd.random()
+                if r_ < 0.7:
+                    cp = copy_of(f, 'other/t.wsp', 'h/y/l.wsp')
+                    if r_ < 0.45:
+                        cp = cp[:-2] + ["many h/y/l.wsp 0 @ 1 @-%d %016x" % (layout[0][0], fbits(778.0))] + cp[-2:]
+                    gl += cp
+            pat = rnd.pick(['*/*.wsp', '*/a.wsp', 'q/*.wsp', '[xy]/*.wsp', 'x/[.wsp', 'y/*.wsp'])
             gl.append("clidiff src=g:%s dest=h: from=0 until=0 archive=-1 spell=%d" % (pat, rnd.pick([0, 1, 2, 3, 4])))
             cases.append({'id': 'c09-%d-glob' % c, 'lines': gl, 'tags': {'layout': lname, 'pair': 'glob', 'window': 'default'}})
         if c == 3:
@@ -373,6 +391,8 @@ def gen_c10(rnd, n, thorough=False):
             hold = ' hold=s/%s/f0.wsp:300' % items[0].replace('.', '/')
         elif rnd.chance(0.3):
             hold = ' remote=1'         # the files summed by a server (the same sum)
+        if hold == '':
+            hold = ' probe=1'          # a sum -- accepted or rejected -- holds none of its files when it returns
         lines.append("clisum base=s item=%s src=%s from=%s until=%s archive=%d header=%d%s spell=%d" % (itempat, srcpat, frm, until, arch, rnd.pick([0, 1]), hold, rnd.pick([0, 0, 1, 2, 3, 4])))
         if kind == 'first_fresh':
             srcpat = '*.wsp'
@@ -581,6 +601,12 @@ def gen_c20(rnd, n, thorough=False):
     for rt in ['1s:49711d', '1s:137y', '2s:7102w', '1s:1m,2s:49711d', '1s:1193047h', '1s:71582789m', '1s:24855d', '1s:68y', '1s:69y', '1s:3550w']:
         ll.append('cliargs generate %s' % ' '.join(a.encode().hex() for a in ['-dest', 'g.wsp', '-agg-method', 'sum', '-retentions', rt]))
     cases.append({'id': 'c20-retentions', 'lines': ll, 'tags': {'levels': 0, 'fill': 0, 'max': 0, 'args': 1}})
+    # the bound arrives as text: every spelling of an integer the flag package reads (base prefixes,
+    # a leading zero is octal, signs) gives the bound it denotes, anything else is a usage error
+    ll = []
+    for mx in ['010', '0100', '0777', '08', '0o17', '0O17', '0b101', '0x10', '0X1f', '+7', '-0', '00', '0', '10', '0x', '0b2', '1e3', ' 7', '7 ', '']:
+        ll.append('cliargs generate %s' % ' '.join((a.encode().hex() or '-') for a in ['-dest', 'g.wsp', '-agg-method', 'sum', '-retentions', '1s:1m', '-max', mx]))
+    cases.append({'id': 'c20-maxtext', 'lines': ll, 'tags': {'levels': 0, 'fill': 0, 'max': 0, 'args': 1}})
     # layouts whose file is an exact number of mebibytes (and one slot more / less), created without fill:
     # the file has the length its header describes and can be opened
     for j, lay in enumerate([[(1, 87379)], [(1, 43200), (60, 44178)], [(1, 87380)]] if not thorough else [[(1, 87379)], [(1, 43200), (60, 44178)], [(1, 87380)], [(1, 87378)], [(1, 174759)]]):
@@ -706,6 +732,37 @@ def gen_c12(rnd, n, thorough=False):
             if rnd.chance(0.4):
                 # the raw dump endpoint reads file and retention only (the other parameters are ignored)
                 lines.append('clirawdump q=%s' % (re.sub(r'TS\([^)]*\)', 'x', q) or '-'))
+        if rnd.chance(0.6):
+            # other spellings of a name ("." and ".." elements, doubled separators), among them names that
+            # leave the base directory through "..": the file is the one the cleaned path names, whether the
+            # base is a directory, the URL of a server serving a directory above it, or (deep=1) the URL of a
+            # server serving exactly that directory
+            lines += fill_ops(rnd, 'out/x.wsp', layout, m, xff, density=0.5)
+            nm0 = names[0]
+            for _ in range(rnd.randint(2, 4)):
+                sp = rnd.pick(['../out/x.wsp', 'i1/../../out/x.wsp', './../out/x.wsp', '../out/../out/x.wsp', '../out/nope.wsp', 'i1/./' + nm0, 'i1//' + nm0,
+                               'i2/../i1/' + nm0, './i1/' + nm0, 'i1/../i1/./' + nm0, '../s/i1/' + nm0, 'i1/sub/../' + nm0, 'zz/../i1/' + nm0])
+                wk, frm, until = window(rnd, layout)
+                arch = rnd.pick([-1] + list(range(k)))
+                kind = rnd.pick(['view', 'view', 'viewraw', 'diffsrc', 'copysrc'])
+                for mode, r in enumerate(['', ' remote=1', ' remote=1 deep=1']):
+                    if kind == 'view':
+                        lines.append("cliview src=s:%s from=%s until=%s archive=%d header=1%s" % (sp, frm, until, arch, r))
+                    elif kind == 'viewraw':
+                        lines.append("cliviewraw src=s:%s from=%s until=%s archive=%d header=1 sort=1%s" % (sp, frm, until, arch, r))
+                    elif kind == 'diffsrc':
+                        lines.append("clidiff src=s:%s dest=s:i2/a.wsp from=%s until=%s archive=%d%s" % (sp, frm, until, arch, r))
+                    else:
+                        lines.append("clicopy src=s:%s dest=e%d:y.wsp from=%s until=%s archive=%d copynan=1 m=%d x=%08x layout=%s%s" % (
+                            sp, mode, frm, until, arch, m, xff, lay_csv(layout), r))
+                        observe_all(lines, 'e%d/y.wsp' % mode, layout)
+        for _ in range(6):
+            # the resolution itself (Model/Path.v against path.Clean, filepath.Clean, filepath.Join)
+            ps = ''.join(rnd.pick('ab../+/.') for _ in range(rnd.randint(0, 12)))
+            lines.append('pathclean %s' % (ps.encode().hex() or '-'))
+        for _ in range(3):
+            els = [''.join(rnd.pick('ab../') for _ in range(rnd.randint(0, 6))) for _ in range(rnd.randint(1, 4))]
+            lines.append('pathjoin %s' % ' '.join((e.encode().hex() or '-') for e in els))
         for _ in range(2):
             nm = rnd.pick(names + ['sub dir/x y.wsp'.replace(' ', '_'), 'ü.wsp'])
             lines.append('cliquerycap src=%s archive=%d from=%s until=%s' % (('i1/' + nm).encode('utf-8').hex(), rnd.pick([-1, 0, 1, 7, -5, 2 ** 40]),
@@ -775,6 +832,11 @@ def gen_c16(rnd, n, thorough=False):
         dense = lname == 'big'
         lines = fill_ops(rnd, 's/i1/a.wsp', layout, m, xff, density=1.0 if dense else 0.5, inconsistent=not dense)
         lines += fill_ops(rnd, 's/i1/b.wsp', layout, m, xff, density=0.5, inconsistent=False)
+        stray = rnd.chance(0.5)
+        if stray:
+            # a plain file next to the item directories: an item pattern that matches it names an item without files
+            lines += fill_ops(rnd, 's/stray', layout, m, xff, density=0.3, inconsistent=False)
+            lines += ["create e/stray/sum.wsp %s m %d x %08x" % (fmt_layout(layout), m, xff), "sync e/stray/sum.wsp", "drop e/stray/sum.wsp"]
         srckind = rnd.pick(['ok', 'ok', 'ok', 'missing', 'corrupt', 'corrupt_count'])
         src = {'ok': 'i1/a.wsp', 'missing': 'i1/none.wsp', 'corrupt': 'i1/zero.wsp', 'corrupt_count': 'i1/zero.wsp'}[srckind]
         if srckind == 'corrupt':
@@ -848,13 +910,13 @@ def gen_c16(rnd, n, thorough=False):
                     src, frm, until, arch, rnd.pick([0, 1]), m, xff, lay_csv(layout), t), "disk d/a.wsp"]
                 observe_all(lines, 'd/a.wsp', layout)
             elif sub == 'sum':
-                lines.append("clisum base=s item=%s src=%s from=%s until=%s archive=%d header=1%s" % (rnd.pick(['i1', 'i*', 'zz']), rnd.pick(['*.wsp', 'a.wsp', 'q*.wsp']), frm, until, arch, t))
+                lines.append("clisum base=s item=%s src=%s from=%s until=%s archive=%d header=1%s" % (rnd.pick(['i1', 'i*', 'zz'] + (['st*', 'stray', 's*'] if stray else [])), rnd.pick(['*.wsp', 'a.wsp', 'q*.wsp']), frm, until, arch, t))
             elif sub == 'sumcopy':
-                lines += ["snap e/i1/sum.wsp", "clisumcopy base=s item=i1 src=[ab].wsp destbase=e dest=sum.wsp from=%s until=%s archive=%d m=%d x=%08x layout=%s%s" % (
-                    frm, until, arch, m, xff, lay_csv(layout), t), "disk e/i1/sum.wsp"]
+                lines += ["snap e/i1/sum.wsp", "clisumcopy base=s item=%s src=[ab].wsp destbase=e dest=sum.wsp from=%s until=%s archive=%d m=%d x=%08x layout=%s%s" % (
+                    'st*' if stray and archsel != 'out_of_range' and rnd.chance(0.25) else 'i1', frm, until, arch, m, xff, lay_csv(layout), t), "disk e/i1/sum.wsp"]
                 observe_all(lines, 'e/i1/sum.wsp', layout)
             elif sub == 'sumdiff':
-                lines.append("clisumdiff base=s item=i1 src=[ab].wsp destbase=e dest=sum.wsp from=%s until=%s archive=%d%s" % (frm, until, arch, t))
+                lines.append("clisumdiff base=s item=%s src=[ab].wsp destbase=e dest=sum.wsp from=%s until=%s archive=%d%s" % ('st*' if stray and archsel != 'out_of_range' and rnd.chance(0.25) else 'i1', frm, until, arch, t))
             else:
                 gname = 'g/x%d.wsp' % len(lines)
                 glay = [(1, 6), (3, 4)] if to != 'full' else [(1, 300), (5, 100)]
@@ -948,7 +1010,7 @@ ARG_VALUES = {
                 '-9223372036854775809', '1.5', '0X1f', '0B2', '00', '-', '+', '0x', '1e3', ' 1'],
     'text-out': ['', '-', '/tmp/x.txt', 'out'],
     'perm': ['644', '0644', '600', '8', '777777777777', '37777777777', '40000000000', '-1', '', '0o7', '+7'],
-    'max': ['0', '100', '-5', 'x', '0x7f', '1e3'],          # (no underscores: the model's ParseInt leaves the underscore syntax out)
+    'max': ['0', '100', '-5', 'x', '0x7f', '1e3', '010', '0100', '0777', '08', '0o17', '0b101', '0X1f', '+7', '-0', '00', '0x', '2147483647', '2147483648', '9223372036854775808'],          # (no underscores: the model's ParseInt leaves the underscore syntax out)
     'addr': [':8080', 'localhost:0', ''],
     'base': ['.', '/srv', ''],
 }
